@@ -201,6 +201,34 @@ def main(replay=None):
                 hist += [("J", mx * 4000), ("E", "[%d, %d] select 1" % (a, b))]; exp += [None, ("eval", "%d" % b)]
             hist += [("L", short), ("S",)]; exp += [None, ("complete", ["77"])]
             add("eval", hist, (mx, tick, default_cap), exp, "eval%d" % i)
+        # 2b. a later run on an old VM in which a script SLEEPS (shorter than the limit): the idle scheduler's test of the limit
+        #     must be measured from the start of that run, too - the run completes and the sleeper wakes
+        def sleeper(d, base):
+            return (Prog(spawn(dl(N(base + 1)), E(Un("sleep", N(d))), dl(N(base + 2))), dl(N(base + 3))),
+                    [str(base + 3), str(base + 1), str(base + 2)])
+
+        def two_sleepers(base):
+            return (Prog(spawn(dl(N(base + 1)), E(Un("sleep", N(2))), dl(N(base + 2))),
+                         spawn(dl(N(base + 4)), E(Un("sleep", N(1))), dl(N(base + 5))), dl(N(base + 3))),
+                    [str(base + 3), str(base + 1), str(base + 4), str(base + 5), str(base + 2)])
+        for (mx, tick) in [(2000, 10000), (3000, 20000), (5000, 50000), (2000, 4000)] + ([(10000, 100000), (4000, 7000)] if thorough else []):
+            lim = mx * 1000
+            s1, m1 = sleeper(1, 100)
+            s2, m2 = sleeper(1, 200)
+            s3, m3 = sleeper(1, 300)
+            w, (wprog, _) = "while_body_spawned", endless["while_body_spawned"]
+            add("old_vm_sleeper", [("L", straight(2)), ("S",), ("J", 3 * lim), ("L", s1), ("S",)], (mx, tick, default_cap),
+                [None, ("complete", ["1", "2"]), None, None, ("complete", m1)], "short run, pause 3x limit, run with a sleeping script")
+            add("old_vm_sleeper", [("J", 5 * lim), ("L", s1), ("S",)], (mx, tick, default_cap),
+                [None, None, ("complete", m1)], "VM 5x limit old before its first run, run with a sleeping script")
+            add("old_vm_sleeper", [("L", wprog), ("S",), ("J", 2 * lim), ("L", s2), ("S",)], (mx, tick, default_cap),
+                [None, ("cut",), None, None, ("complete", m2)], "a run cut by the limit, pause, run with a sleeping script")
+            add("old_vm_sleeper", [("L", s1), ("S",), ("J", lim + tick), ("L", s2), ("S",), ("J", 100 * lim), ("L", s3), ("S",)], (mx, tick, default_cap),
+                [None, ("complete", m1), None, None, ("complete", m2), None, None, ("complete", m3)], "three runs with sleeping scripts, pauses in between")
+            if mx >= 3000:
+                t2, mt = two_sleepers(400)
+                add("old_vm_sleeper", [("L", straight(1)), ("S",), ("J", 4 * lim), ("L", t2), ("S",)], (mx, tick, default_cap),
+                    [None, ("complete", ["1"]), None, None, ("complete", mt)], "pause 4x limit, run with two sleeping scripts")
         # 3. single-stepping, a pause, then start: the run began at the first step (correspondence; time bound only)
         for i in range(300 if thorough else 12):
             mx, tick = rng.choice([(2, 100), (5, 250)])
@@ -344,7 +372,7 @@ def main(replay=None):
     run.cov["rule"] = ("histories on one VM under a virtual clock: every kind of endless program (while/for/forEach/count/apply/switch/try, empty "
                        "and non-empty bodies, scheduled and unscheduled, recursion through call, mutually spawning scripts, sleeping scripts, "
                        "waitUntil) under several limits followed by a short run after a clock jump; random multi-run histories with jumps up "
-                       "to 10^6 x limit; single steps + pause + start; abort; while loops under caps 1, 2, 7, the default and random caps with "
+                       "to 10^6 x limit; later runs on an old VM in which a spawned script sleeps shorter than the limit (several limits and ticks); single steps + pause + start; abort; while loops under caps 1, 2, 7, the default and random caps with "
                        "the counter read inside the loop; random programs cut at a random instruction. A case is distinct by (program texts, "
                        "limit, tick, cap)")
     run.cov["input_distribution"] = dict(kinds, runs_cut=ncut, runs_complete=ncomplete, caps_checked=ncap, expressions_evaluated_like_EVAL=neval)
